@@ -42,6 +42,15 @@ unsafe impl std::alloc::GlobalAlloc for CountingAlloc {
         }
         p
     }
+    unsafe fn alloc_zeroed(&self, layout: std::alloc::Layout) -> *mut u8 {
+        // pass through, so that a huge zeroed request stays a lazy mapping instead of being touched
+        let p = std::alloc::System.alloc_zeroed(layout);
+        if !p.is_null() {
+            let c = CUR.fetch_add(layout.size(), Ordering::Relaxed) + layout.size();
+            PEAK.fetch_max(c, Ordering::Relaxed);
+        }
+        p
+    }
     unsafe fn dealloc(&self, p: *mut u8, layout: std::alloc::Layout) {
         CUR.fetch_sub(layout.size(), Ordering::Relaxed);
         std::alloc::System.dealloc(p, layout)
